@@ -29,11 +29,12 @@ static MModel base_model()
     return m;
 }
 
-static const int NFAULT = 24;
+static const int NFAULT = 30;
 static const char* FAULTNAME[NFAULT] = {"none", "duplicate-location-name", "location-named-like-local-variable", "duplicate-template-name", "unknown-source-ref", "unknown-target-ref",
     "unknown-init-ref", "duplicate-global-variable", "duplicate-local-variable", "syntax-error-in-guard", "unknown-identifier-in-invariant", "duplicate-process", "too-few-arguments", "too-many-arguments",
     "duplicate-id", "duplicate-function", "location-named-like-parameter", "syntax-error-in-declaration", "syntax-error-in-parameters", "unknown-template-in-system", "duplicate-select-binder",
-    "syntax-error-in-system", "type-error-in-update", "instance-named-like-template"};
+    "syntax-error-in-system", "type-error-in-update", "instance-named-like-template",
+    "init-without-ref", "no-init-element", "target-is-a-parameter", "target-is-a-local-variable", "target-is-a-function", "target-is-a-clock"};
 // returns false if the fault cannot be expressed in the chosen format
 static bool inject(MModel& m, int fault, int pos, bool xml)
 {
@@ -63,11 +64,22 @@ static bool inject(MModel& m, int fault, int pos, bool xml)
     case 21: m.system = "P2 = T(K, h); system P2, , U;"; return true;
     case 22: t.edges[pos % 4].assign = "g = c"; return true;
     case 23: m.system = "T = T(1, g); system T, U;"; return true;
+    case 24: case 25: return xml;   // applied to the node stream below
+    // the target of an edge names something that exists in the template's scope but is not a location
+    case 26: case 27: case 28: case 29: {
+        static const char* NAMES[] = {"a", "loc", "f2", "y"};
+        MEdge& e = t.edges[pos % 4];
+        e.dst_bp = false; e.dst = 0;
+        if (!xml) { e.dst_name_override = NAMES[fault - 26]; return true; }
+        // XML: ids map to names globally; a location of the OTHER template carries the name of this template's symbol
+        m.templs[1].locs.push_back(MLoc{"id19", NAMES[fault - 26]});
+        e.dst_ref_override = "id19";
+        return true; }
     }
     return false;
 }
 
-extern "C" void harness_recovery()  /* vf: bounds=2_formats(XML_node_stream,whole-file_XTA)_x_24_faults_x_4_fault_positions_in_a_2-template_model_with_branchpoint,select,functions,chained_partial_instantiation reach=end */
+extern "C" void harness_recovery()  /* vf: bounds=2_formats(XML_node_stream,whole-file_XTA)_x_30_faults_x_4_fault_positions_in_a_2-template_model_with_branchpoint,select,functions,chained_partial_instantiation reach=end */
 {
     bool xml = vf_pick("!xml", 2);
     int fault = vf_pick("!fault", NFAULT), pos = vf_pick("!position", 4);
@@ -86,6 +98,9 @@ extern "C" void harness_recovery()  /* vf: bounds=2_formats(XML_node_stream,whol
             }
             d.nodes = keep;
         }
+        if (fault == 24) { for (auto& n : d.nodes) if (n.type == 1 && !strcmp(n.name, "init") && pos % 2 == 0) { n.attrs.clear(); break; } else if (n.type == 1 && !strcmp(n.name, "init")) { pos = 0; } }
+        if (fault == 24 && pos % 2) { int seen = 0; for (auto& n : d.nodes) if (n.type == 1 && !strcmp(n.name, "init") && seen++ == 1) n.attrs.clear(); }
+        if (fault == 25) { std::vector<VNode> keep; int seen = 0; for (auto& n : d.nodes) { if (n.type == 1 && !strcmp(n.name, "init") && seen++ == pos % 2) continue; keep.push_back(n); } d.nodes = keep; }
         try { parse_xml(d, &doc); } catch (std::exception& e) { threw = true; vf_note(e.what()); }
     } else {
         std::string s = render_xta(m);
